@@ -356,6 +356,22 @@ def multi_case(item):
         return name, ("invalid-settings",), []
     fails = []
     if not (out["C"].status == "ok" and out["S"].status == "ok"):
+        # what the server put on the wire is judged all the same (the
+        # library's own client now refuses a certificate of the wrong type)
+        sm = plaintext_handshake(pair.world.s2c.log)
+        shs = [bd for t, bd in sm if t == 2 and bytes(bd[2:34]) != HRR_RANDOM]
+        certs = [bd for t, bd in sm if t == 11]
+        if shs and certs:
+            b = shs[-1]
+            o = 2 + 32
+            o += 1 + b[o]
+            wsuite = int.from_bytes(b[o:o + 2], "big")
+            winfo = S.ALL_INFOS.get(wsuite)
+            if winfo is not None and not winfo.tls13:
+                kt = cert_key_type(certs[0])
+                if KEYTYPE_AUTH.get(kt) != winfo.auth:
+                    fails.append("suite %s selected, server certificate key "
+                                 "type is %s" % (winfo.name, kt))
         return name, ("failed", out["S"].sig()[:3]), fails
     sid = pair.c.session.cipherSuite
     info = S.ALL_INFOS[sid]
